@@ -356,6 +356,7 @@ SPECS["C07"] = dict(
         dict(id="histories", run="^TestC07Histories$", quick=dict(shards=5, checks=300, timeout=600, shrinktime=30), thorough=dict(shards=4, checks=8000, timeout=3400, shrinktime=300)),
         dict(id="flood", run="^TestC07ShutdownUnderConnects$", quick=dict(shards=1, checks=40, timeout=600, shrinktime=20), thorough=dict(shards=2, checks=1000, timeout=3400, shrinktime=120)),
         dict(id="regstop", run="^TestC07RegisterAtShutdown$", quick=dict(shards=1, checks=40, timeout=600, shrinktime=20), thorough=dict(shards=2, checks=1000, timeout=3400, shrinktime=120)),
+        dict(id="failedstart", run="^TestC07FailedStart$", quick=dict(shards=1, checks=150, timeout=600, shrinktime=20), thorough=dict(shards=2, checks=5000, timeout=3400, shrinktime=120)),
     ]),
 )
 
